@@ -11,12 +11,13 @@ import Generated.CmdlineTable
 namespace Cmdline
 
 /-- the shape the isolation argument needs: the only positional is `nargs=REMAINDER` -/
-def WFTable (t : Table) : Prop := t.pos = .remainder
+def WFTable (t : Table) : Prop := t.pos = .remainder ∧ t.plainArgs = true
 
 instance (t : Table) : Decidable (WFTable t) := by unfold WFTable; exact inferInstance
 
 /-- the tables Lithium builds today have that shape (checked on the regenerated data: changing
-`nargs=argparse.REMAINDER` in reducer.py breaks THIS proof obligation) -/
+`nargs=argparse.REMAINDER` in reducer.py, or giving a parser `fromfile_prefix_chars` / other
+`prefix_chars`, breaks THIS proof obligation) -/
 theorem C17_generated_wf :
     WFTable Generated.earlyTable ∧ ∀ t ∈ Generated.mainTables, WFTable t := by
   decide
